@@ -508,7 +508,8 @@ fn p_new_connection_id<const N: usize>() {
 }
 
 /// ADD_ADDRESS: seq, port(16), ip(32|128), tire, nat type (0..=5).
-/// NOTE (finding, see `c03_nat_type_truncation_pending`): the NAT type is taken modulo 256.
+/// The NAT type must be in 0..=5 as a full varint (values >= 0x100 used to be truncated with `as u8`:
+/// genuine defect, fixed in /repo; `c03_nat_type_range` keeps the 2-byte-varint case explicit).
 fn p_add_address<const N: usize>() {
     let (arr, len) = any_input::<N>();
     let v6: bool = kani::any();
@@ -520,7 +521,6 @@ fn p_add_address<const N: usize>() {
         if len - p >= alen {
             if let Some((tire, q)) = ref_varint(&arr, p + alen, len) {
                 if let Some((nat, e)) = ref_varint(&arr, q, len) {
-                    kani::assume(nat <= 0xff); // NAT type truncation: see c03_nat_type_truncation_pending
                     if nat <= 5 {
                         expect = Some(e);
                         fields = (seq, p, tire, nat);
@@ -564,7 +564,6 @@ fn p_punch_me_now<const N: usize>() {
         if len - p >= alen {
             if let Some((tire, q)) = ref_varint(&arr, p + alen, len) {
                 if let Some((nat, e)) = ref_varint(&arr, q, len) {
-                    kani::assume(nat <= 0xff); // NAT type truncation: see c03_nat_type_truncation_pending
                     if nat <= 5 {
                         expect = Some(e);
                         fields = (v[0], v[1], p, tire, nat);
@@ -797,8 +796,8 @@ fn p_stream<const N: usize>() {
     }
 }
 
-/// CRYPTO header. `strict` = the RFC 9000 §19.6 rule (offset + length <= 2^62-1) as oracle — the
-/// pending harness; the registered twin uses the rule the code implements (2*offset <= 2^62-1).
+/// CRYPTO header. `strict` = the RFC 9000 §19.6 rule (offset + length <= 2^62-1) as oracle (always
+/// used now; `false` = the rule the pinned tree implemented by mistake, 2*offset <= 2^62-1).
 fn p_crypto<const N: usize>(strict: bool) {
     let (arr, len) = any_input::<N>();
     let mut expect = None;
@@ -1039,11 +1038,11 @@ dual! {
 }
 
 dual! {
-    /// C03 CRYPTO and DATAGRAM headers on every input of <= 8 bytes. CRYPTO oracle = the rule the
-    /// code implements (see c03_crypto_offset_check_pending).
+    /// C03 CRYPTO and DATAGRAM headers on every input of <= 8 bytes. CRYPTO oracle = RFC 9000
+    /// §19.6 (offset + length <= 2^62-1).
     c03_crypto_datagram_parsers, c03_crypto_datagram_parsers_real, 10, 10, {
         if kani::any() {
-            p_crypto::<8>(false)
+            p_crypto::<8>(true)
         } else {
             p_datagram::<8>()
         }
@@ -1113,27 +1112,27 @@ modelled! {
 }
 
 modelled! {
-    /// C03 STREAM header on every input of <= 24 bytes; CRYPTO (code rule) <= 16; DATAGRAM <= 16.
+    /// C03 STREAM header on every input of <= 24 bytes; CRYPTO (offset + length <= 2^62-1) <= 16; DATAGRAM <= 16.
     c03_data_header_parsers_wide, 10, {
         let which: u8 = kani::any();
         match which % 3 {
             0 => p_stream::<24>(),
-            1 => p_crypto::<16>(false),
+            1 => p_crypto::<16>(true),
             _ => p_datagram::<16>(),
         }
     }
 }
 
-// ---- pending (suspected genuine defects) ----
+// ---- former defects (fixed in /repo; the harnesses stay so that a regression is reported) ----
 
-/// C03 (pending — suspected genuine defect): `NatType::try_from(VarInt)` truncates the wire value
-/// with `as u8`, so ADD_ADDRESS / PUNCH_ME_NOW with NAT type 0x100, 0x101, ... decode as Blocked,
-/// FullCone, ... instead of being rejected.
+/// C03 (genuine defect on the pinned tree, fixed in /repo): `NatType::try_from(VarInt)` truncated the
+/// wire value with `as u8`, so ADD_ADDRESS / PUNCH_ME_NOW with NAT type 0x100, 0x101, ... decoded as
+/// Blocked, FullCone, ... instead of being rejected.
 #[kani::proof]
 #[kani::stub(core::slice::index::slice_index_fail, stub_slice_index_fail)]
 #[kani::unwind(10)]
 #[kani::stub(crate::varint::be_varint, model_be_varint)]
-fn c03_nat_type_truncation_pending() {
+fn c03_nat_type_range() {
     let (arr, len) = any_input::<12>();
     // seq(1) port+ipv4(6) tire(1) nat(2): a 2-byte NAT type
     kani::assume(len == 10 && arr[0] < 0x40 && arr[7] < 0x40 && arr[8] >> 6 == 1);
@@ -1150,15 +1149,15 @@ fn c03_nat_type_truncation_pending() {
     }
 }
 
-/// C03 (pending — suspected genuine defect): be_crypto_frame checks `offset + offset` instead of
-/// `offset + length` against 2^62-1: it accepts CRYPTO headers whose offset + length exceeds
-/// 2^62-1 (RFC 9000 §19.6: FRAME_ENCODING_ERROR or CRYPTO_BUFFER_EXCEEDED) and rejects valid
+/// C03 (genuine defect on the pinned tree, fixed in /repo): be_crypto_frame checked `offset + offset`
+/// instead of `offset + length` against 2^62-1: it accepted CRYPTO headers whose offset + length exceeds
+/// 2^62-1 (RFC 9000 §19.6: FRAME_ENCODING_ERROR or CRYPTO_BUFFER_EXCEEDED) and rejected valid
 /// ones with offset >= 2^61.
 #[kani::proof]
 #[kani::stub(core::slice::index::slice_index_fail, stub_slice_index_fail)]
 #[kani::unwind(10)]
 #[kani::stub(crate::varint::be_varint, model_be_varint)]
-fn c03_crypto_offset_check_pending() {
+fn c03_crypto_offset_check() {
     p_crypto::<16>(true)
 }
 
@@ -1215,14 +1214,16 @@ fn c03_error_mapping() {
     core::mem::forget(q);
 }
 
-/// C03 (pending — suspected genuine defect): RFC 9000 §12.4 "An endpoint MUST treat receipt of a
+/// C03 (OPEN KNOWN FINDING F-C03-wrong-type-kind — the repo's own unit test
+/// `frame::error::tests::test_error_conversion_to_transport_error` pins the current mapping, so it cannot be
+/// repaired without editing the suite): RFC 9000 §12.4 "An endpoint MUST treat receipt of a
 /// frame in a packet type that is not permitted as a connection error of type PROTOCOL_VIOLATION";
 /// `From<frame::Error> for QuicError` maps `WrongType` to FRAME_ENCODING_ERROR.
 #[kani::proof]
 #[kani::stub(core::slice::index::slice_index_fail, stub_slice_index_fail)]
 #[kani::unwind(4)]
 #[kani::stub(core::fmt::write, stub_fmt_write)]
-fn c03_error_mapping_wrong_type_pending() {
+fn c03_error_mapping_wrong_type() {
     let fty = any_known_frame_type();
     let q: QuicError = Error::WrongType(fty, any_packet_type()).into();
     kani::cover!(true, "reached");
